@@ -345,9 +345,9 @@ Proof.
         -- destruct (stored_kind _ _ _ Hok G) as (Ko&_).
            rewrite vote_conflict_is; auto. congruence.
       * destruct (put c (key_of m) m rnds) as [[c1 r1]|] eqn:P; [|discriminate].
-        inversion H; subst. eapply put_inv in P; eauto. destruct P as (?&?&?). repeat split; auto.
+        inversion H; subst. eapply put_inv with (seen := seen) in P; eauto. destruct P as (?&?&?). repeat split; auto.
     + destruct (put c (key_of m) m rnds) as [[c1 r1]|] eqn:P; [|discriminate].
-      inversion H; subst. eapply put_inv in P; eauto. destruct P as (?&?&?). repeat split; auto.
+      inversion H; subst. eapply put_inv with (seen := seen) in P; eauto. destruct P as (?&?&?). repeat split; auto.
   - unfold log_and_check_proposal in H.
     assert (Hkey : prop_key m = key_of m) by (unfold key_of; now rewrite Km).
     rewrite Hkey in H.
@@ -359,7 +359,7 @@ Proof.
            rewrite prop_conflict_is; auto. congruence.
       * inversion H; subst. repeat split; auto.
     + destruct (put c (key_of m) m rnds) as [[c1 r1]|] eqn:P; [|discriminate].
-      inversion H; subst. eapply put_inv in P; eauto. destruct P as (?&?&?). repeat split; auto.
+      inversion H; subst. eapply put_inv with (seen := seen) in P; eauto. destruct P as (?&?&?). repeat split; auto.
 Qed.
 
 Lemma run_sound_gen : forall steps c seen cf outs,
@@ -408,23 +408,36 @@ Qed.
 
 Definition total_cost (l : list msg) : Z := fold_right (fun m acc => (cost m + acc)%Z) 0%Z l.
 
+Lemma total_cost_nil : total_cost [] = 0%Z.
+Proof. reflexivity. Qed.
+
+Lemma total_cost_cons x l : total_cost (x :: l) = (cost x + total_cost l)%Z.
+Proof. reflexivity. Qed.
+
 Lemma total_cost_app a b : total_cost (a ++ b) = (total_cost a + total_cost b)%Z.
-Proof. induction a; cbn; lia. Qed.
+Proof.
+  induction a as [|x a IH]; cbn [app].
+  - rewrite total_cost_nil. lia.
+  - rewrite !total_cost_cons. lia.
+Qed.
 
 Lemma total_cost_nonneg l : (forall x, In x l -> (0 <= cost x)%Z) -> (0 <= total_cost l)%Z.
 Proof.
-  induction l as [|x l IH]; cbn; intros H; [lia|].
-  assert (0 <= cost x)%Z by (apply H; now left).
-  assert (0 <= total_cost l)%Z by (apply IH; intros y Hy; apply H; now right). lia.
+  induction l as [|x l IH]; intros H.
+  - rewrite total_cost_nil. lia.
+  - rewrite total_cost_cons.
+    assert (0 <= cost x)%Z by (apply H; now left).
+    assert (0 <= total_cost l)%Z by (apply IH; intros y Hy; apply H; now right). lia.
 Qed.
 
 Lemma total_cost_in l x : (forall y, In y l -> (0 <= cost y)%Z) -> In x l -> (cost x <= total_cost l)%Z.
 Proof.
-  induction l as [|y l IH]; cbn; intros H Hin; [contradiction|].
+  induction l as [|y l IH]; intros H Hin; [contradiction|].
+  rewrite total_cost_cons.
   assert (0 <= cost y)%Z by (apply H; now left).
   assert (0 <= total_cost l)%Z by (apply total_cost_nonneg; intros z Hz; apply H; now right).
   destruct Hin as [->|Hin]; [lia|].
-  assert (cost x <= total_cost l)%Z by (apply IH; auto). lia.
+  assert (cost x <= total_cost l)%Z by (apply IH; auto; intros z Hz; apply H; now right). lia.
 Qed.
 
 Lemma put_noevict c k v rnds :
@@ -473,7 +486,7 @@ Proof.
   - intros k m Hm. rewrite kv_get_set in Hm. apply in_or_app. destruct (dkey_eqb k (key_of b)) eqn:E.
     + inversion Hm; subst. right. now left.
     + left. eapply Hfrom; eauto.
-  - rewrite total_cost_app. cbn. lia.
+  - rewrite total_cost_app, total_cost_cons, total_cost_nil. lia.
   - intros m Hin. apply in_app_or in Hin. destruct Hin as [Hin|[<-|[]]].
     + destruct (Hall m Hin) as [H|(m0&G&Hh)].
       * apply covered_more_R. now left.
@@ -493,7 +506,7 @@ Proof.
   intros (Hcap&Hok&Hfrom&Hsum&Hall) Hc Hb.
   unfold Inv. repeat split; auto.
   - intros k m Hm. apply in_or_app. left. eapply Hfrom; eauto.
-  - rewrite total_cost_app. cbn. lia.
+  - rewrite total_cost_app, total_cost_cons, total_cost_nil. lia.
   - intros m Hin. apply in_app_or in Hin. destruct Hin as [Hin|[<-|[]]]; auto.
     apply covered_more_R. auto.
 Qed.
@@ -531,14 +544,14 @@ Proof.
         apply Inv_keep; auto. left. exists o, b. split; auto. apply in_or_app. right. now left.
       * assert (Hh : hash o = hash b).
         { eapply nonconflict_same_hash; eauto. rewrite vote_conflict_is; auto. congruence. }
-        rewrite put_noevict; rewrite G.
+        rewrite put_noevict; try rewrite G.
         -- eexists. exists None. split; [reflexivity|].
            apply Inv_put; auto.
            ++ assert (0 <= cost o)%Z by auto. lia.
            ++ intros o' G'. congruence.
         -- lia.
         -- assert (0 <= cost o)%Z by auto. lia.
-    + rewrite put_noevict; rewrite G.
+    + rewrite put_noevict; try rewrite G.
       * eexists. exists None. split; [reflexivity|].
         apply Inv_put; auto.
         -- lia.
@@ -557,7 +570,7 @@ Proof.
         { eapply nonconflict_same_hash; eauto. rewrite prop_conflict_is; auto. congruence. }
         exists c, None. split; auto.
         apply Inv_keep; auto. right. exists o. auto.
-    + rewrite put_noevict; rewrite G.
+    + rewrite put_noevict; try rewrite G.
       * eexists. exists None. split; [reflexivity|].
         apply Inv_put; auto.
         -- lia.
@@ -585,14 +598,14 @@ Proof.
     { intros x Hx. apply Hpos. apply in_or_app. right. now right. }
     assert (Htr : (0 <= total_cost (map fst r))%Z) by (now apply total_cost_nonneg).
     destruct (step_complete cap c seen R b rnds HI) as (c1&out&L&HI1); auto.
-    { rewrite total_cost_app in Htot. cbn in Htot. lia. }
+    { rewrite total_cost_app, total_cost_cons in Htot. lia. }
     cbn [run]. rewrite L.
     destruct (IH cap c1 (seen ++ [b]) (R ++ [out]) HI1) as (cf&outs&Rn&HIf).
     { rewrite <- Hsplit. exact Hpos. }
     { rewrite <- Hsplit. exact Htot. }
     { rewrite <- Hsplit. exact Hnid. }
     rewrite Rn. exists cf, (out :: outs). split; auto.
-    rewrite Hsplit. rewrite <- app_assoc in HIf. exact HIf.
+    rewrite <- !app_assoc in HIf. cbn [app] in HIf. exact HIf.
 Qed.
 
 Lemma Inv_init cap : Inv cap (make_cache cap) [] [].
